@@ -213,6 +213,18 @@ func hexPrefix(b []byte, n int) string {
 	return fmt.Sprintf("%x", b)
 }
 
+// writeReused hands w the bytes of chunk in a buffer of the caller's that is overwritten as soon as
+// the call returns - what io.Copy and every pooled-buffer caller do. A Writer that kept a reference
+// to the slice instead of consuming it would compress the overwritten bytes.
+func writeReused(w io.Writer, chunk []byte) (int, error) {
+	buf := append(make([]byte, 0, len(chunk)), chunk...)
+	n, err := w.Write(buf)
+	for i := range buf {
+		buf[i] = 0xDD
+	}
+	return n, err
+}
+
 // --- known findings ------------------------------------------------------------
 
 // knownActive reports whether the known-findings file lists entry id as "known"
